@@ -52,7 +52,11 @@ Record lexfn {A} (f : bytes -> outcome (A * bytes)) : Prop := {
 
 Lemma lexfn_ext {A} (f g : bytes -> outcome (A * bytes)) : (forall d, f d = g d) -> lexfn f -> lexfn g.
 Proof.
-  intros E [a b c t]. constructor; intros *; rewrite <- !E; eauto.
+  intros E [a b c t]. constructor.
+  - intros d v r x. rewrite <- !E. apply a.
+  - intros d v r. rewrite <- E. intros H. destruct (b _ _ _ H) as [c0 [H1 H2]]. exists c0. rewrite <- E. auto.
+  - intros d e x. rewrite <- !E. apply c.
+  - intros d. rewrite <- E. apply t.
 Qed.
 
 Lemma lexfn_ret {A} (v : A) : lexfn (fun d => Ok (v, d)).
